@@ -24,7 +24,7 @@ func init() { register(c14{}) }
 func (c14) ID() string    { return "C14" }
 func (c14) Level() string { return "exploration" }
 func (c14) Rule() string {
-	return "(i) value oracle: frames of every type including type 0 are decoded with UnmarshalBinary on zero, NewX() and reused receivers and with ReadPacket from a stream; all accessors are snapshotted, the input slice is overwritten with 0xAA and then with random bytes, and the snapshot must not change; packets read earlier from a stream must not change when later ones are read. (ii) race oracle (race-detector build): after the decode one goroutine scribbles over the input slice while another reads every accessor and calls WriteTo/String/Dump with no synchronisation — any aliasing is a data race even where values coincide. (iii) pools of 4..16 packets (decoded ones and fresh NewX() values, which share package-level data) under random histories of decode-into / encode / setter operations: every untouched packet keeps its snapshot after every step and a reference frame decodes to the same snapshot wherever in the history it is decoded. distinct = (type, receiver kind, frame digest) resp. history signature; non-trivial = frame body non-empty"
+	return "(i) value oracle: frames of every type including type 0 are decoded with UnmarshalBinary on zero, NewX() and reused receivers and with ReadPacket from a stream; all accessors are snapshotted, the input slice is overwritten with 0xAA and then with random bytes, and the snapshot must not change; packets read earlier from a stream must not change when later ones are read. (ii) race oracle (race-detector build): after the decode one goroutine scribbles over the input slice while another reads every accessor and calls WriteTo/String/Dump with no synchronisation — any aliasing is a data race even where values coincide. (iii) pools of 4..16 packets (decoded ones and fresh NewX() values, which share package-level data) under random histories of decode-into / encode / setter operations (also setters of two packets given one argument slice with spare capacity, and the program overwriting byte slices that accessors handed out): every untouched packet keeps its snapshot after every step and a reference frame decodes to the same snapshot wherever in the history it is decoded. distinct = (type, receiver kind, frame digest) resp. history signature; non-trivial = frame body non-empty"
 }
 func (c14) Assumptions() []string {
 	return []string{"slices handed to setters are the caller's business; the property concerns buffers handed to UnmarshalBinary / read buffers", "decoding into a used packet may leave any state in that packet, but must not touch others"}
@@ -350,7 +350,7 @@ func c14Pool(c *run.Ctx, r *gen.RNG) {
 	for i := 0; i < steps; i++ {
 		k := r.Intn(len(pool))
 		m := &pool[k]
-		switch r.Intn(7) {
+		switch r.Intn(9) {
 		case 0: // decode a frame into an existing packet of the same Go type
 			a := gen.Packet(r, pickType(m.t), gen.RandomMask(r, pickType(m.t)), gen.Small, gen.Domain{})
 			if a.Type == ref.TConnect && r.Chance(2, 3) {
@@ -412,6 +412,88 @@ func c14Pool(c *run.Ctx, r *gen.RNG) {
 			}
 			c.Eval(1)
 			if !check(k, "fresh-decode") {
+				return
+			}
+		case 7: // one argument slice with spare capacity handed to setters of two packets
+			var subsIdx []int
+			for j := range pool {
+				if _, ok := pool[j].p.(*mq.Subscribe); ok {
+					subsIdx = append(subsIdx, j)
+				}
+			}
+			if len(subsIdx) < 2 {
+				p1, p2 := mq.NewSubscribe(), mq.NewSubscribe()
+				if add(p1, "new") && add(p2, "new") {
+					subsIdx = append(subsIdx, len(pool)-2, len(pool)-1)
+				} else {
+					continue
+				}
+			}
+			fs := make([]mq.TopicFilter, 0, 8)
+			fs = append(fs, mq.NewTopicFilter("shared/a", 1), mq.NewTopicFilter("shared/b", 2))
+			a, b := subsIdx[0], subsIdx[1]
+			trail = append(trail, fmt.Sprintf("AddFilters(shared slice)[%d],[%d] then AddFilters(x)[%d]", a, b, a))
+			if pan := mon.Guard(func() {
+				pool[a].p.(*mq.Subscribe).AddFilters(fs...)
+				pool[b].p.(*mq.Subscribe).AddFilters(fs...)
+			}); pan != nil {
+				return
+			}
+			for _, j := range []int{a, b} {
+				if sn, pan := snapshotGuarded(pool[j].p); pan == nil {
+					pool[j].snap = sn
+				}
+			}
+			mon.Guard(func() { pool[a].p.(*mq.Subscribe).AddFilters(mq.NewTopicFilter("only/for/a", 0)) })
+			if sn, pan := snapshotGuarded(pool[a].p); pan == nil {
+				pool[a].snap = sn
+			}
+			c.Eval(1)
+			if !check(a, "setter-with-shared-argument") {
+				return
+			}
+			mon.Guard(func() { pool[b].p.(*mq.Subscribe).AddFilters(mq.NewTopicFilter("only/for/b", 0)) })
+			if sn, pan := snapshotGuarded(pool[b].p); pan == nil {
+				pool[b].snap = sn
+			}
+			if !check(b, "setter-with-shared-argument") {
+				return
+			}
+		case 8: // the program overwrites a byte slice an accessor handed out (wiping a password, reusing a payload buffer)
+			trail = append(trail, fmt.Sprintf("scribble over accessor results[%d %s]", k, tname(m.t)))
+			mon.Guard(func() {
+				scribble := func(b []byte) {
+					for i := range b {
+						b[i] = 0
+					}
+				}
+				switch x := m.p.(type) {
+				case *mq.Connect:
+					scribble(x.Password())
+					scribble(x.AuthData())
+					if w := x.Will(); w != nil {
+						scribble(w.CorrelationData())
+					}
+				case *mq.ConnAck:
+					scribble(x.AuthData())
+				case *mq.Publish:
+					scribble(x.Payload())
+					scribble(x.CorrelationData())
+				case *mq.Auth:
+					scribble(x.AuthData())
+				case *mq.Undefined:
+					scribble(x.Data())
+				case *mq.SubAck:
+					scribble(x.ReasonCodes())
+				case *mq.UnsubAck:
+					scribble(x.ReasonCodes())
+				}
+			})
+			c.Eval(1)
+			if sn, pan := snapshotGuarded(m.p); pan == nil {
+				m.snap = sn
+			}
+			if !check(k, "scribble-accessor-result") {
 				return
 			}
 		case 5, 6: // a frame no well-behaved peer sends: foreign properties, bodies under another type nibble
